@@ -200,10 +200,23 @@ pub fn gen_watch(rng: &mut Rng, o: &WatchOpts) -> Scenario {
             let f = if rng.chance(20) {
                 Fault { site: format!("proc.spawn:{}", sc.sim_id(t.0, &t.1)), occurrence: occ, kind: "eagain".into() }
             } else {
-                Fault { site: format!("proc.exit:{}", sc.sim_id(t.0, &t.1)), occurrence: occ, kind: "exit=2".into() }
+                Fault { site: format!("proc.exit:{}", sc.sim_id(t.0, &t.1)), occurrence: occ, kind: gen::fail_exit(rng) }
             };
             let exit_fault = f.site.starts_with("proc.exit");
-            inv.plan.faults.push(f);
+            inv.plan.faults.push(f.clone());
+            // a third of those: the same target fails again two runs later in exactly the same
+            // way (a good run in between), which takes two more edits of its own sources
+            if exit_fault && rng.chance(35) {
+                let own: Vec<String> = own_sources(&sc, t).into_iter().map(|x| x.0).collect();
+                if !own.is_empty() {
+                    inv.plan.faults.push(Fault { occurrence: occ + 2, ..f.clone() });
+                    for k in 0..3u32 {
+                        let path = rng.pick(&own).clone();
+                        inv.plan.events.push(PlanEvent { id: format!("again{}", k), kind: PlanEventKind::Fs { ops: vec![FsOp::Write { path, content: format!("fixed / broken again #{}\n", k) }] }, gate: Gate::Quiescence(q) });
+                        q += 1;
+                    }
+                }
+            }
             // half of the time the user keeps editing while that very run is in progress
             if exit_fault && rng.chance(50) {
                 if let Some(op) = gen_watch_op(rng, &sc, &[t.clone()], 900 + occ as u64) {
@@ -1022,7 +1035,10 @@ impl Property for C16 {
         files.push(FileSpec { path: "p0/out".into(), kind: FileKind::Dir });
         let mut sc = Scenario { focus: None, label: "watch-relevance".into(), projects: vec![proj], files, vars: BTreeMap::new(), steps: vec![] };
         let all: Vec<String> = sc.projects[0].targets.iter().map(|t| t.name.clone()).collect();
-        if rng.chance(50) {
+        // a fifth of the sessions: the very first run of one target fails, and one of its inputs is
+        // saved again while that run is in progress (the user fixing it) - that change counts
+        let during_fail = rng.chance(20);
+        if !during_fail && rng.chance(50) {
             let mut inv = plain_invocation(rng, &sc, 0, all.clone());
             inv.plan.strategy = Strategy::Fifo;
             sc.steps.push(Step::Invoke(inv));
@@ -1031,6 +1047,12 @@ impl Property for C16 {
         wargs.extend(all);
         let mut inv = plain_invocation(rng, &sc, 0, wargs);
         inv.plan.events.clear();
+        if during_fail {
+            let ti = rng.below(n);
+            let id = sc.sim_id(0, &format!("t{}", ti));
+            inv.plan.faults.push(simrt::plan::Fault { site: format!("proc.exit:{}", id), occurrence: 1, kind: gen::fail_exit(rng) });
+            inv.plan.events.push(PlanEvent { id: "during-failing-run".into(), kind: PlanEventKind::Fs { ops: vec![FsOp::Write { path: format!("p0/src/t{}/a.c", ti), content: "saved again while the failing run was in progress\n".into() }] }, gate: Gate::Running { id, nth: 1 } });
+        }
         let nb = rng.range(2, 7);
         let dirs: Vec<String> = sc.projects[0].targets.iter().filter(|t| t.name != "lint").map(|t| format!("p0/src/{}", t.name)).collect();
         let existing: Vec<String> = sc.files.iter().filter(|f| matches!(f.kind, FileKind::File(_)) && !f.path.contains("/.zinoma/")).map(|f| f.path.clone()).collect();
@@ -1114,20 +1136,26 @@ impl Property for C16 {
             return None; // start-up failure is C06's matter
         }
         // segments between idle points
-        let applies: Vec<&crate::run::Ev> = r.events.iter().filter(|e| e.kind == "fs-apply").collect();
         let quiesc: Vec<u64> = r.events.iter().filter(|e| e.kind == "quiescence").map(|e| e.seq).collect();
-        let mut ev_idx = 0;
+        let failures = super::oneshot::observed_failures(&c);
+        let markers: Vec<&crate::run::Ev> = r.events.iter().filter(|e| e.kind == "plan-event").collect();
         for pe in &s.inv.plan.events {
             let ops = match &pe.kind {
                 PlanEventKind::Fs { ops } => ops,
                 _ => continue,
             };
-            let first = match applies.get(ev_idx) {
-                Some(e) => e.seq,
-                None => break,
+            // the operations of this plan event, wherever in the session it fired
+            let fired = match markers.iter().find(|m| m.rest.trim() == pe.id) {
+                Some(m) => m.seq,
+                None => continue,
             };
-            let effective = applies[ev_idx..ev_idx + ops.len().min(applies.len() - ev_idx)].iter().any(|e| e.field("events").map(|n| n != "0").unwrap_or(false));
-            ev_idx += ops.len();
+            let until = markers.iter().map(|m| m.seq).find(|&q| q > fired).unwrap_or(u64::MAX);
+            let applies: Vec<&crate::run::Ev> = r.events.iter().filter(|e| e.kind == "fs-apply" && e.seq > fired && e.seq < until).collect();
+            let first = match applies.first() {
+                Some(e) => e.seq,
+                None => continue,
+            };
+            let effective = applies.iter().any(|e| e.field("events").map(|n| n != "0").unwrap_or(false));
             let next_idle = quiesc.iter().find(|&&q| q > first).copied().unwrap_or(u64::MAX);
             // a metadata change of a directory is not a change to a file: it may or may not be
             // looked at, but it must not stop later changes from being reported (next bursts)
@@ -1160,6 +1188,14 @@ impl Property for C16 {
                 }
             } else if effective {
                 for t in &rel_targets {
+                    // a target behind a dependency that failed and has not succeeded since stays
+                    // blocked (C07): its change is acted upon once the dependency is repaired
+                    let blocked = model::transitive_effective_deps(sc, t).iter().any(|d| {
+                        failures.iter().any(|(ft, fseq)| ft == d && *fseq < next_idle && !c.build_ready_seqs(d).iter().any(|&s| s > *fseq && s < next_idle))
+                    });
+                    if blocked {
+                        continue;
+                    }
                     if !evaluated.contains(t) {
                         let dead = r.events.iter().any(|e| e.kind == "watcher-died" && e.seq < next_idle);
                         return viol(
